@@ -9,6 +9,7 @@
 #include "romea_core_common/pointset/algorithms/NormalAndCurvatureEstimation.hpp"
 #include "romea_core_common/pointset/NormalSet.hpp"
 #include "romea_core_common/pointset/KdTree.hpp"
+#include <set>
 #include "vh_points.hpp"
 
 using namespace vhp;
@@ -263,6 +264,18 @@ static void gen_cloud(vh::Rng & r, Cloud & cl)
           for (int b = -m; b <= m; ++b) {VecL p(3); p(axis) = sg * cl.dist; p((axis + 1) % 3) = a * h; p((axis + 2) % 3) = b * h; all.push_back(p);}
         }
       }
+    }
+    // walls share their edges and corners: keep one copy of each lattice point (a neighbourhood of
+    // identical points has no least-variance direction and is outside the quantifier)
+    {
+      std::set<std::vector<long>> seen_pts;
+      std::vector<VecL> uniq;
+      for (const VecL & p : all) {
+        std::vector<long> key(d);
+        for (int j = 0; j < d; ++j) {key[j] = std::lround((double)(p(j) / h));}
+        if (seen_pts.insert(key).second) {uniq.push_back(p);}
+      }
+      all.swap(uniq);
     }
     for (int i = (int)all.size(); i > 1; --i) {std::swap(all[i - 1], all[r.range(0, i - 1)]);}
     N = std::max(cl.k + 1, std::min<int>(N, (int)all.size()));
